@@ -422,7 +422,7 @@ def run_py(scratch: Scratch, args: list[str], *, input_text: str | None = None, 
     return subprocess.run([PY] + args, input=input_text, capture_output=True, text=True, timeout=timeout, env=e, cwd=cwd)
 
 
-def parallel_py(scratch: Scratch, script: str, jobs: list[Any], *, nproc: int | None = None, timeout: int = 1800, env=None) -> list[Any]:
+def parallel_py(scratch: Scratch, script: str, jobs: list[Any], *, nproc: int | None = None, timeout: int = 5400, env=None) -> list[Any]:
     """Run `script` (a module path under harness/, executed as `python -m`) in nproc children; each child gets a
     JSON list of jobs on stdin and must print one JSON line per job result.  Jobs are dealt round-robin
     deterministically.  Returns results in job order (each result must carry the job's "id")."""
